@@ -84,7 +84,7 @@ package cluster
 //@ uf nMembers() int
 //@ uf localNode() *memberlist.Node
 //@ func (*Peer).AddState$2
-//@   props C19
+//@   props C19 C10 C09
 //@   requires p != nil && deref(p) != nil
 //@   after call Memberlist).Members assume len(res0) == nMembers() && (forall i int :: 0 <= i && i < len(res0) ==> res0[i] == mlMember(i) && mlMember(i) != nil)
 //@   after call Node).String assume res0 == arg0.Name
